@@ -6,6 +6,7 @@ import (
 	"fmt"
 	"os"
 	"path/filepath"
+	"strconv"
 	"strings"
 
 	"github.com/gabriel-vasile/mimetype"
@@ -126,7 +127,13 @@ func c07Judge(c *fw.Ctx, kind string, in []byte, limit uint32, entry string, cla
 	ok := c.Guard(key, func() any { return fw.MkInCase(kind, in, limit, entry, "panic") }, func() {
 		var m *mimetype.MIME
 		var err error
-		if strings.HasPrefix(entry, "DetectFile:") {
+		if strings.HasPrefix(entry, "DetectFilePaused:") {
+			cut, _ := strconv.Atoi(strings.TrimPrefix(entry, "DetectFilePaused:"))
+			m, err = detectPipePaused(in, limit, cut)
+			if err != nil {
+				panic("DetectFile returned an error for a named pipe that a writer fills and closes: " + err.Error())
+			}
+		} else if strings.HasPrefix(entry, "DetectFile:") {
 			mimetype.SetLimit(limit)
 			m, err = mimetype.DetectFile(strings.TrimPrefix(entry, "DetectFile:"))
 		} else {
@@ -439,6 +446,22 @@ func c07Run(c *fw.Ctx, b fw.Batch) {
 				x := append(append([]byte{}, mk...), tail...)
 				for _, l := range []uint32{0, uint32(len(mk)), uint32(len(mk) + 1), uint32(len(x))} {
 					c07Judge(c, "other-marks", x, l, "Detect", fmt.Sprintf("marks|%x|%d", mk, l))
+				}
+			}
+		}
+		// DetectFile on a named pipe whose writer delivers a clean first piece, pauses, and then
+		// delivers the piece with the binary byte: the header is the first `limit` bytes of the
+		// file, not what the first read(2) returned
+		for _, cut := range []int{1, 64, 512, 1000} {
+			for _, gap := range []int{0, 1, 700} {
+				for _, v := range []byte{0x00, 0x1F, 0x08} {
+					x := bytes.Repeat([]byte("clean text line\n"), 150)
+					off := cut + gap
+					x[off] = v
+					for _, l := range []uint32{3072, uint32(off + 1), uint32(off), 0} {
+						c07Judge(c, "paused-pipe", x, l, fmt.Sprintf("DetectFilePaused:%d", cut), fmt.Sprintf("paused-pipe|%d|%d|%d", cut, gap, l))
+						c.Count("paused_pipe_detections", 1)
+					}
 				}
 			}
 		}
